@@ -49,6 +49,23 @@ def isExported (n : String) : Bool :=
 def coveredBy (inv : List String) (n : String) : Bool :=
   inv.any fun c => c == n || (Go.hasSuffix c "*" && Go.hasPrefix n (String.ofList (c.toList.dropLast)))
 
+/-- (deep round 4) a package-level SENTINEL: a pointer to a sentinel type (`*oidc.Error`: nobody writes such an object except through the
+    tracked mutator methods) that no listed mutator call and no write site can reach.  The reflect snapshots are supporting evidence
+    only; a new exported `var ErrX = oidc.ErrY().WithDescription(…)` need not be added to the harness' snapshot list. -/
+def isSentinelGlobal (n : String) : Bool :=
+  let H := Gen.heapFacts
+  H.kindOf n == "ptr" && H.sentinelType (H.tyOf n) &&
+    !((heapHits H).any fun h => match h.2 with | .global g _ => g == n | _ => false) &&
+    !(Gen.facts.sites.any fun s => s.root == .global n)
+
+/-- `oidc.Error.Description` for the receiver writes of the mutator methods that are called (after initialisation) on a value the
+    caller did not make (`e.WithDescription(…)` on an error found with errors.As in the error a function was handed) -/
+def mutatedHandedIn : List String :=
+  let H := Gen.heapFacts
+  (H.writes.filter fun w => match H.mutatorOf w with
+    | some m => H.mutCalls.any fun k => k.2.2.1 == m && k.2.2.2.any fun o => o != "fresh" && !Go.hasPrefix o "global:"
+    | none => false).map fun w => w.ty ++ "." ++ ".".intercalate w.path
+
 def step (l : Line) : String :=
   let F := Gen.facts
   let pre := "case=" ++ str l "case" ++ " class=" ++ classOf l
@@ -56,7 +73,7 @@ def step (l : Line) : String :=
   match str l "kind" with
   | "inventory" =>
     let inv := list l "covered"
-    let missing := F.globals.filter fun n => isExported n && !coveredBy inv n
+    let missing := F.globals.filter fun n => isExported n && !coveredBy inv n && !isSentinelGlobal n
     pre ++ " model=exported:" ++ toString (F.globals.filter isExported).length ++ "/missing:" ++ esc (join missing) ++ post ++
       " agree=" ++ (if missing.isEmpty then "1" else "0")
   | "facts" =>
@@ -84,8 +101,8 @@ def step (l : Line) : String :=
     -- writes into an object that a library function was HANDED (parameter / errors.As target) may hit whatever caller-owned
     -- object of that type a step passes in (the storage's sentinel error value, …): may-alias by type, named `<type>.<field>`
     -- (`F.reach` lists only functions with write sites of their own, so this is not narrowed to the step's call graph)
-    let handed := dedup (((Gen.foreignWrites.filter fun w => Go.hasPrefix w.via "param:" && w.ty == "oidc.Error").map
-      fun w => w.ty ++ "." ++ ".".intercalate w.path).filter fun p => o.suppliedChanged.any fun n => covers p n)
+    let handed := dedup ((((Gen.foreignWrites.filter fun w => Go.hasPrefix w.via "param:" && w.ty == "oidc.Error").map
+      fun w => w.ty ++ "." ++ ".".intercalate w.path) ++ mutatedHandedIn).filter fun p => o.suppliedChanged.any fun n => covers p n)
     let cells := cells ++ handed
     let unexplained := observed.filter fun n => !cells.any fun p => covers p n
     -- a deterministic interleaving of two requests of this step on the one instance: what may race when it runs twice at once
